@@ -6,6 +6,7 @@
 //! loom's Mutex/Condvar/RwLock/atomics/mpsc/thread and a virtual clock.
 
 mod c12;
+mod c14;
 mod c18;
 #[path = "../../common/ctx.rs"]
 mod ctx;
@@ -36,6 +37,16 @@ fn child(args: &[String]) {
                     std::process::exit(2)
                 });
             harness::run_child(bound, max_secs, move || c12::body(&spec));
+        }
+        "C14" => {
+            let spec = c14::catalogue(thorough)
+                .into_iter()
+                .find(|s| s.name == name)
+                .unwrap_or_else(|| {
+                    eprintln!("unknown harness {name}");
+                    std::process::exit(2)
+                });
+            harness::run_child(bound, max_secs, move || c14::body(&spec));
         }
         "C18" => {
             let spec = c18::catalogue(thorough)
@@ -188,6 +199,20 @@ fn main() {
     };
     match prop.as_str() {
         "C12" => run_c12(tier),
+        "C14" => {
+            let specs = c14::catalogue(tier == Tier::Thorough);
+            let samples = specs.iter().take(3).map(|s| json!({"harness": s.name, "threads": format!("{:?}", s.threads)})).collect();
+            run_catalogue(
+                "C14",
+                tier,
+                specs.iter().map(|s| s.name.clone()).collect(),
+                None,
+                "C14:deadlock",
+                samples,
+                "each harness = 2-3 threads of registry requests (read / write / call / register) on colliding pointers over the real registry.rs under loom (unbounded DPOR); per-thread results, callable invocations and final reads of every schedule must equal those of some sequential order on a plain JSON document + callable set",
+                &["sequentially consistent interleavings at RwLock granularity (loom)"],
+            )
+        }
         "C18" => {
             let specs = c18::catalogue(tier == Tier::Thorough);
             let samples = specs.iter().take(3).map(|s| json!({"harness": s.name, "threads": format!("{:?}", s.threads)})).collect();
